@@ -226,7 +226,11 @@ def pipeline(ctx, mod, args):
             "wall_s": round(ctx.elapsed(), 2),
             "violations": len(new) + (1 if (ctx.broken and not new) else 0),
         }
-        write_json_atomic(os.path.join(VERIF, "evidence", pid + ".json"), ev)
+        # evidence/ describes runs against /repo itself; a run against a scratch checkout (MAKO_REPO, seeded changes,
+        # revert tests) leaves its record in evidence_scratch/ (not committed) so that it never replaces it
+        evdir = "evidence" if os.path.realpath(REPO) == "/repo" else "evidence_scratch"
+        os.makedirs(os.path.join(VERIF, evdir), exist_ok=True)
+        write_json_atomic(os.path.join(VERIF, evdir, pid + ".json"), ev)
     ctx.log("done rc=%d: %d theorems (%d discharged), %d cases, %d disagreements, %d violations (%d known), broken=%s"
             % (rc, len(ctx.obligations), len(ctx.discharged), sum(s["cases"] for s in ctx.streams.values()),
                len(ctx.disagreements), len(ctx.violations), len(ctx.violations) - len(new), [b["what"] for b in ctx.broken]))
